@@ -15,6 +15,14 @@ static const Item* g_query = nullptr;
 static long long g_n = 0;
 static bool g_oob = false;
 static bool g_trace = true;
+static bool g_coarse = false;   // variant letter in upper case: equalFunc compares id/2 (equal but distinguishable items)
+static bool g_selfswap = false;
+
+// the configuration this harness is meant to exercise (checked at compile time)
+static_assert(std::is_same<HashSorter::HashCode, size_t>::value && sizeof(size_t) == 8, "64-bit hash codes");
+static_assert(internal::RadixSorter<>::radixSize == 8, "HashSorter sorts with RadixSorter<8>");
+static_assert(internal::RadixSorter<>::selectionSortMaxCount == 32, "selection sort up to 32 items");
+static_assert(internal::RadixSorter<>::radixCount == 256, "256 buckets");
 
 static long long idx_of(const Item* p)
 {
@@ -30,7 +38,7 @@ struct HF {   // plain variant: the hash function of an item
 	size_t operator()(const Item& it) const { if (&it != g_query) log_hash(idx_of(&it)); return size_t(it.h); }
 };
 struct EQ {
-	bool operator()(const Item& a, const Item& b) const { log_eq(idx_of(&a), idx_of(&b)); return a.id == b.id; }
+	bool operator()(const Item& a, const Item& b) const { log_eq(idx_of(&a), idx_of(&b)); return g_coarse ? (a.id / 2 == b.id / 2) : (a.id == b.id); }
 };
 struct HashIt {   // prehashed variant: only operator[] is used by IterPrehashFunc for searching
 	const uint64_t* p;
@@ -81,7 +89,8 @@ int main()
 			std::string var; size_t n; is >> var >> n; Arr a; a.read_pairs(is, n);
 			ull qh = 0; long long qi = 0; if (cmd != "S") is >> qh >> qi;
 			a.query = Item{ qh, qi, -1 }; a.arm(n); g_trace = true;
-			bool pre = (var == "p"); HashIt hit{ a.hbase() }; Item* b = a.base();
+			g_coarse = (var == "P" || var == "H");
+			bool pre = (var == "p" || var == "P"); HashIt hit{ a.hbase() }; Item* b = a.base();
 			std::ostringstream os;
 			if (cmd == "FH")
 			{
@@ -109,7 +118,8 @@ int main()
 		{
 			std::string var; size_t n; is >> var >> n; Arr a; a.read_pairs(is, n);
 			a.query = Item{ 0, 0, -1 }; a.arm(n); g_trace = false;
-			bool pre = (var == "p"); Item* b = a.base();
+			g_coarse = (var == "P" || var == "H");
+			bool pre = (var == "p" || var == "P"); Item* b = a.base();
 			if (pre) HashSorter::SortPrehashed(b, n, a.hbase(), EQ());
 			else HashSorter::Sort(b, n, HF(), EQ());
 			if (pre) for (size_t i = 0; i < n; ++i) b[i].h = a.hbase()[i];   // report the parallel hash array
@@ -131,15 +141,54 @@ int main()
 		else if (cmd == "HSORT")
 		{	// real Sort / SortPrehashed with a logging iterSwapper: final arrangement | swap trace
 			std::string var; size_t n; is >> var >> n; Arr a; a.read_pairs(is, n);
-			a.query = Item{ 0, 0, -1 }; a.arm(n); g_trace = false;
-			bool pre = (var == "p"); Item* b = a.base();
-			auto swapper = [b] (Item* x, Item* y) { g_log.push_back((x - b) * 100000 + (y - b)); std::iter_swap(x, y); };
+			a.query = Item{ 0, 0, -1 }; a.arm(n); g_trace = false; g_selfswap = false;
+			g_coarse = (var == "P" || var == "H");
+			bool pre = (var == "p" || var == "P"); Item* b = a.base();
+			auto swapper = [b] (Item* x, Item* y) { if (x == y) g_selfswap = true; g_log.push_back((x - b) * 100000 + (y - b)); std::iter_swap(x, y); };
 			if (pre) HashSorter::SortPrehashed(b, n, a.hbase(), EQ(), swapper);
 			else HashSorter::Sort(b, n, HF(), EQ(), swapper);
 			if (pre) for (size_t i = 0; i < n; ++i) b[i].h = a.hbase()[i];
 			std::ostringstream os;
 			for (size_t i = 0; i < n; ++i) os << ull(b[i].h) << " " << b[i].id << " ";
-			printf("%s%s| %s\n", g_oob ? "OOB " : "", os.str().c_str(), trace_str().c_str());
+			printf("%s%s%s| %s\n", g_oob ? "OOB " : "", g_selfswap ? "SELFSWAP " : "", os.str().c_str(), trace_str().c_str());
+		}
+		else if (cmd == "BIGFIND")
+		{	// arrays too large for a case line (pvGetStepCount = 3 needs >= 2^22 items): built here, checked here against
+			// std::lower_bound / a linear scan of the hash run.  BIGFIND n seed kind
+			size_t n; ull seed; std::string kind; is >> n >> seed >> kind;
+			std::vector<Item> v(n + 2); std::vector<uint64_t> hs(n + 2);
+			auto rnd = [&seed] () { seed += 0x9E3779B97F4A7C15ull; ull z = seed; z = (z ^ (z >> 30)) * 0xBF58476D1CE4E5B9ull; z = (z ^ (z >> 27)) * 0x94D049BB133111EBull; return z ^ (z >> 31); };
+			ull step = n ? (~0ull) / n : 0;
+			for (size_t i = 0; i < n; ++i)
+			{	// item id i/2 (pairs of equal items), every third id shares its hash with the next id
+				ull id = i / 2, hid = id - (id % 3 == 1 ? 1 : 0);
+				ull h = (kind == "uniform") ? hid * 2 * step : (kind == "low") ? hid : (kind == "skew") ? (id * 2 < n - n / 8 ? hid : ~0ull - (n - hid)) : hid * 2 * step;
+				v[i + 1] = Item{ h, (long long)id, (long long)i }; hs[i + 1] = h;
+			}
+			v[0] = v[n + 1] = Item{ 0x5555555555555555ull, -7, -7 };
+			Item* b = v.data() + 1; Arr dummy; (void)dummy;
+			g_base = b; g_n = (long long)n; g_oob = false; g_trace = false; g_coarse = false;
+			size_t bad = 0, nq = 0; std::string first;
+			for (int q = 0; q < 60 && n > 0; ++q)
+			{
+				size_t pos = (q < 4) ? (q == 0 ? 0 : q == 1 ? n - 1 : q == 2 ? n / 2 : n / 3) : size_t(rnd() % n);
+				Item query = b[pos]; if (q % 3 == 2) query.id = 1000000000000LL + q;        // absent item with a present hash
+				if (q % 5 == 4) { query.h = b[pos].h + 1; query.id = 1000000000001LL; }      // (mostly) absent hash
+				g_query = &query;
+				size_t lo = n, hi = n;
+				for (size_t i = std::lower_bound(hs.begin() + 1, hs.begin() + 1 + n, query.h) - (hs.begin() + 1); i < n && b[i].h == query.h; ++i)
+					if (b[i].id == query.id) { if (lo == n) lo = i; hi = i + 1; }
+				bool present = lo != n;
+				for (int pre = 0; pre < 2; ++pre)
+				{
+					auto r = pre ? HashSorter::FindPrehashed(b, n, HashIt{ hs.data() + 1 }, query, size_t(query.h), EQ()) : HashSorter::Find(b, n, query, HF(), EQ());
+					auto bd = pre ? HashSorter::GetBoundsPrehashed(b, n, HashIt{ hs.data() + 1 }, query, size_t(query.h), EQ()) : HashSorter::GetBounds(b, n, query, HF(), EQ());
+					size_t bb = bd.GetBegin() - b, be = bd.GetEnd() - b; ++nq;
+					bool ok = (r.found == present) && (!present || (size_t(r.iterator - b) >= lo && size_t(r.iterator - b) < hi)) && (present ? (bb == lo && be == hi) : (bb == be && bb <= n));
+					if (!ok || g_oob) { if (!bad) { std::ostringstream os; os << "q=" << q << " pre=" << pre << " found=" << r.found << " idx=" << (r.iterator - b) << " bounds=" << bb << "," << be << " expected " << present << " [" << lo << "," << hi << ")"; first = os.str(); } ++bad; }
+				}
+			}
+			printf("%s%zu/%zu step=%zu %s\n", g_oob ? "OOB " : "", nq - bad, nq, size_t(HashSorter::pvGetStepCount(n)), bad ? first.c_str() : "ok");
 		}
 		else puts("?");
 	}
